@@ -601,17 +601,19 @@ theorem step_shape (sp : Spec) (w : World) (e : Event) : Shape sp w.tasks (step 
           · rename_i hns
             split
             · exact shape_same _ _ _ rfl
-            · have := shape_upd sp w.tasks t
-                (fun x : TaskRow => ({ x with state := St.RUNNING, processed := false } : TaskRow)) []
-                (fun _ => rfl) (by
-                  intro r' h1 h2
-                  unfold findRow at hr
-                  simp only at hr
-                  rw [hr] at h1
-                  have : r' = r := by simpa using h1.symm
-                  subst this
-                  rw [h2] at hns; exact absurd (by decide) hns) (by simp) (by simp)
-              simpa using this
+            · split
+              · exact shape_same _ _ _ rfl
+              · have := shape_upd sp w.tasks t
+                  (fun x : TaskRow => ({ x with state := St.RUNNING, processed := false } : TaskRow)) []
+                  (fun _ => rfl) (by
+                    intro r' h1 h2
+                    unfold findRow at hr
+                    simp only at hr
+                    rw [hr] at h1
+                    have : r' = r := by simpa using h1.symm
+                    subst this
+                    rw [h2] at hns; exact absurd (by decide) hns) (by simp) (by simp)
+                simpa using this
     | rpcResult t ok =>
       simp only [step]; split
       · exact shape_same _ _ _ rfl
